@@ -313,6 +313,64 @@ SAFE_STR_BOUNDS = ("::find", "::rfind", "::len", "::char_indices", "::match_indi
                    "::unwrap_or", "::unwrap", "::map", "::clone", "::deref", "::as_str", "::borrow", "::as_ref")
 
 
+def _defs_of(f, fl, x):
+    return [s3 for _, _, s3 in f.stmts() if fl.node(s3["pl"]) == x and not s3["pl"]["p"]]
+
+
+def _copies_only(f, fl, dst, src, depth=0):
+    """dst is src through plain copies/moves (no arithmetic, no calls)."""
+    if dst == src:
+        return True
+    if depth > 8:
+        return False
+    ds = _defs_of(f, fl, dst)
+    if len(ds) != 1 or ds[0]["rv"]["k"] != "use" or fl.call_defs.get(dst):
+        return False
+    p = op_place(ds[0]["rv"]["op"])
+    return p is not None and not p["p"] and _copies_only(f, fl, p["l"], src, depth + 1)
+
+
+def _copy_root(f, fl, x):
+    """The local x is a plain copy of (through whole-local copies/moves only)."""
+    for _ in range(12):
+        ds = _defs_of(f, fl, x)
+        if len(ds) != 1 or ds[0]["rv"]["k"] != "use" or fl.call_defs.get(x):
+            return x
+        p = op_place(ds[0]["rv"]["op"])
+        if p is None or p["p"]:
+            return x
+        x = p["l"]
+    return x
+
+
+def _sum_with(f, fl, total, part, depth=0):
+    """total = part + <something unsigned> (through copies and the checked-add tuple)."""
+    if depth > 8:
+        return False
+    ds = _defs_of(f, fl, total)
+    if len(ds) != 1 or fl.call_defs.get(total):
+        return False
+    rv = ds[0]["rv"]
+    if rv["k"] == "use":
+        p = op_place(rv["op"])
+        return p is not None and _sum_with(f, fl, p["l"], part, depth + 1)
+    if rv["k"] == "bin" and rv["op"] in ("Add", "AddWithOverflow", "AddUnchecked"):
+        for side in (rv["a"], rv["b"]):
+            l = op_local(side)
+            if l is not None and "usize" in f.local_ty(l) + "usize" and (l == part or _copies_only(f, fl, l, part) or _field_copy(f, fl, l, part)):
+                return True
+    return False
+
+
+def _field_copy(f, fl, a, b):
+    """a and b are both plain reads of the same place (e.g. two copies of self.seek)."""
+    da, db = _defs_of(f, fl, a), _defs_of(f, fl, b)
+    if len(da) != 1 or len(db) != 1 or da[0]["rv"]["k"] != "use" or db[0]["rv"]["k"] != "use":
+        return False
+    pa, pb = op_place(da[0]["rv"]["op"]), op_place(db[0]["rv"]["op"])
+    return pa is not None and pb is not None and pa == pb and bool(pa["p"])
+
+
 def range_slice_discharge(ctx, f, bb, t, cont, range_local):
     """Discharge of `x[a..b]` with computed bounds.  Strings: every computed bound must come from boundary-producing
     searches on a string (find/rfind/len/char_indices...), which yield char boundaries within the string.  Other
@@ -374,6 +432,65 @@ def range_slice_discharge(ctx, f, bb, t, cont, range_local):
         lm = len_minus_const(ctx, bl)
         if lm and ckey is not None and lm[0] == ckey and ctx.ld.min_len_at_term(bb, ckey) >= lm[1]:
             tested.add(bl)
+    # a bound computed FROM the sequence's length by an operation that cannot exceed it: len % k, len / k, len & m, len >> k,
+    # min(len, y)
+    def le_len(x, depth=0):
+        if x is None or depth > 6:
+            return False
+        if ckey is not None and ctx.ld.len_source(x) == ckey:
+            return True
+        for _, tt in fl.call_defs.get(x, []):
+            if (callee_of(tt) or "").rsplit("::", 1)[-1] == "min" and any(le_len(op_local(a), depth + 1) for a in tt["args"]):
+                return True
+        ds = _defs_of(f, fl, x)
+        if len(ds) != 1 or fl.call_defs.get(x):
+            return False
+        rv = ds[0]["rv"]
+        if rv["k"] == "use":
+            pp = op_place(rv["op"])
+            return pp is not None and not pp["p"] and le_len(pp["l"], depth + 1)
+        if rv["k"] == "bin" and rv["op"] in ("Rem", "Div", "BitAnd", "Shr", "ShrUnchecked"):
+            return le_len(op_local(rv["a"]), depth + 1) or (rv["op"] == "BitAnd" and le_len(op_local(rv["b"]), depth + 1))
+        return False
+    for o in var:
+        bl = op_local(o)
+        if bl is not None and bl not in tested and le_len(bl):
+            tested.add(bl)
+    # the sequence was resized, on a dominating path, to max(.., bound) (or to the bound itself): it holds at least `bound`
+    # elements afterwards (`buf.resize(max(buf.len(), end), 0); buf[start..end]`)
+    for d in doms:
+        td = f.term(d)
+        if td["k"] != "call" or not (callee_of(td) or "").endswith("Vec::<T, A>::resize") or len(td["args"]) < 2:
+            continue
+        if ckey is None or ctx.ld.key_of_operand(td["args"][0]) != ckey:
+            continue
+        nl = op_local(td["args"][1])
+        if nl is None:
+            continue
+        nsrc = fl.back_pure([nl], stop=lambda x: 0 < x <= f.argc)
+        for o in var:
+            bl = op_local(o)
+            if bl is None or bl in tested:
+                continue
+            same = lambda x: x is not None and _copy_root(f, fl, x) == _copy_root(f, fl, bl)
+            if same(nl):
+                tested.add(bl)
+                continue
+            for x in nsrc:
+                for _, tt in fl.call_defs.get(x, []):
+                    if (callee_of(tt) or "").rsplit("::", 1)[-1] == "max" and any(same(op_local(a)) for a in tt["args"]):
+                        tested.add(bl)
+    # a start bound from which a discharged end bound was computed by addition (end = start + n, unsigned): start <= end
+    for o in var:
+        bl = op_local(o)
+        if bl is None or bl in tested:
+            continue
+        for o2 in var:
+            el = op_local(o2)
+            if el is None or el == bl or el not in tested:
+                continue
+            if _sum_with(f, fl, el, bl):
+                tested.add(bl)
     if all(op_local(o) in tested for o in var):
         return "rangeslice: every computed bound is the sequence's length (minus a constant it is known to hold) or is compared with it on a dominating branch", ""
     return None, "no dominating comparison of the computed bound(s) with the sequence's length"
@@ -648,6 +765,20 @@ def run(tier="quick", replay=None):
                         m = ctx.ld.min_len_at_term(pd[1], rkey)
                         if m >= need:
                             how = "length: %s() on %s with min_len %d" % (short, describe_place_key(f, rkey), m)
+                if how is None and short == "from_utf8" and pd and pd[0] == "call" and name in ("unwrap", "expect"):
+                    # from_utf8 of a buffer that bin2hex just filled (ASCII hex digits only): the buffer's only other
+                    # definition is its zero-filled creation
+                    src = ctx.flow.back([op_local(pd[2]["args"][0])]) if op_local(pd[2]["args"][0]) is not None else set()
+                    bufs = {x for x in src if x >= 0 and f.local_ty(x) in ("std::vec::Vec<u8>",) or (x >= 0 and f.local_ty(x).startswith("[u8;"))}
+                    filled = [(b3, t3) for b3, t3 in f.calls() if (callee_of(t3) or "").endswith("::bin2hex") and len(t3["args"]) >= 2
+                              and op_local(t3["args"][1]) is not None and (ctx.flow.back([op_local(t3["args"][1])]) & bufs)
+                              and f.dominates(b3, pd[1])]
+                    writers = [callee_of(t3) for b3, t3 in f.calls() if b3 not in {b for b, _ in filled}
+                               and any(op_local(a) in src and i < len(t3.get("arg_tys", [])) and t3["arg_tys"][i].startswith("&mut ")
+                                       for i, a in enumerate(t3["args"]))
+                               and (callee_of(t3) or "").rsplit("::", 1)[-1] not in ("deref_mut", "as_mut_slice", "index_mut", "as_mut")]
+                    if filled and not writers:
+                        how = "infallible: from_utf8 of a buffer filled by bin2hex (ASCII hex digits only)"
                 if how is None and l is not None and name in ("unwrap", "expect") and tested_some(ctx, bb, l):
                     how = "tested: dominated by the Some/Ok edge of a test on the same place"
                 settle(f, key, site, "unwrap", how,
@@ -983,6 +1114,43 @@ def check_bounded(prog, reach, R, table, used):
                                     ok = True
                                 else:
                                     why = "with a limit present a run_step call is reachable without passing the limit test"
+        if not ok and limit_param is not None:
+            # combinator form: `if iter_limit.is_some_and(|limit| limit <= iters) { return Err(..) }` - the comparison lives in
+            # the closure handed to an Option combinator applied to the limit; the branch on its result is the limit test
+            fl = ctx.flow
+            lim_locals = fl.forward([limit_param]) | {limit_param}
+            step_blocks = {bb for bb, _ in steps}
+            for sb, blk in enumerate(run.blocks):
+                tt = blk["t"]
+                if tt["k"] != "switch" or blk.get("cleanup"):
+                    continue
+                dl = op_local(tt["discr"])
+                if dl is None:
+                    continue
+                for cb, ct in fl.call_defs.get(_copy_root(run, fl, dl), []):
+                    nm = (callee_of(ct) or "").rsplit("::", 1)[-1]
+                    if nm not in ("is_some_and", "map_or", "is_none_or", "map_or_else") or not ct["args"]:
+                        continue
+                    if op_local(ct["args"][0]) not in lim_locals:
+                        continue
+                    has_cmp = False
+                    for a in ct["args"][1:]:
+                        c = op_const(a)
+                        cl = c.get("closure") if c else None
+                        al = op_local(a)
+                        if cl is None and al is not None:
+                            for _, _, st in run.stmts():
+                                if st["pl"]["l"] == al and st["rv"]["k"] == "agg" and st["rv"].get("agg") == "closure":
+                                    cl = st["rv"]["closure"]
+                        g = prog.fns.get(cl) if cl else None
+                        if g is not None and any(st["rv"]["k"] == "bin" and st["rv"]["op"] in ("Gt", "Ge", "Lt", "Le") for _, _, st in g.stmts()):
+                            has_cmp = True
+                    if not has_cmp:
+                        continue
+                    arms = [g_ for _, g_ in tt["arms"]] + [tt["otherwise"]]
+                    leads = [bool(run.reachable(g_, avoid=[sb]) & step_blocks) for g_ in arms]
+                    if any(leads) and not all(leads) and all(bb2 not in run.reachable(0, avoid=[sb]) for bb2 in step_blocks):
+                        ok = True
         R.check(ok, "R14.b", "R14.b|compiler::clvm::run|limit-tested", "%s:%s" % (run.file, run.line),
                 "auto: every run_step in run() is dominated by the comparison of the step counter with iter_limit",
                 "compiler::clvm::run no longer tests its step limit before each step: " + why, fn=run.path)
